@@ -56,7 +56,7 @@ func switchCaseConsts(p *packages.Package, fd *ast.FuncDecl, typeName string) (m
 
 func checkC18(r *Run) propMeta {
 	meta := propMeta{Level: "other",
-		Explanation: "Decides a thin structural necessary condition of dump/load round-tripping: (R1) table agreement — the codec switches of the compression writer, the decompression reader, the validator and the file-extension table accept the same set and reject everything else with an error; every switch over the fragment phase handles the same phases; dump and load use the same record struct types, every field of FragmentNode/FragmentEdge is populated by the dump and read by the load path; (R2) writer lifecycle — in both phase functions the last partial shard is flushed before the success return and an open writer is aborted on error (shared with C19-R3); (R3) the manifest entry's Count, CompressedBytes, UncompressedBytes and SHA256 are taken from the writer's own counters and hasher in Close, and the loader compares count, size and digest. (R4) on the verifier's side (everything reachable from collectDatabaseMetrics) every keyset scan's total is counted from the database being scanned (countGraphEntitySnapshot), never copied from a manifest or checkpoint; (R5) no graph.ID is compared with the constant 0 (0 is a valid ID; cursor presence has its own boolean). NOT decided: graph isomorphism, shard/batch boundary arithmetic, JSON value fidelity of properties, metrics fingerprints — all value-level.",
+		Explanation: "Decides a thin structural necessary condition of dump/load round-tripping: (R1) table agreement — the codec switches of the compression writer, the decompression reader, the validator and the file-extension table accept the same set and reject everything else with an error; every switch over the fragment phase handles the same phases; dump and load use the same record struct types, every field of FragmentNode/FragmentEdge is populated by the dump and read by the load path; (R2) writer lifecycle — in both phase functions the last partial shard is flushed before the success return and an open writer is aborted on error (shared with C19-R3); (R3) the manifest entry's Count, CompressedBytes, UncompressedBytes and SHA256 are taken from the writer's own counters and hasher in Close, and the loader compares count, size and digest. (R4) on the verifier's side (everything reachable from collectDatabaseMetrics) every keyset scan's total is counted from the database being scanned (countGraphEntitySnapshot), never copied from a manifest or checkpoint; (R5) no graph.ID is compared with the constant 0 (0 is a valid ID; cursor presence has its own boolean). (R6) the graph-name to directory mapping is url.PathEscape with nothing lossy after it; (R7) no metrics-builder map is keyed by a strings.Join of names. NOT decided: graph isomorphism, shard/batch boundary arithmetic, JSON value fidelity of properties, metrics fingerprints — all value-level.",
 		Assumptions: []string{"encoding/json round-trips the record structs"},
 		TrustedBase: []string{"go/types", "this analyser"}}
 	if err := r.Load("./retriever/..."); err != nil {
@@ -249,24 +249,64 @@ func checkC18(r *Run) propMeta {
 		r.Undecide("C18-R3: compressedJSONLinesWriter.Close not found")
 	}
 	if vc := decls["verifyChecksumValues"]; vc != nil {
-		txt := exprString(r.Fset, vc.Body)
-		if strings.Contains(txt, "expectedSHA256") && strings.Contains(txt, "expectedCompressedBytes") && strings.Count(txt, "!=") >= 2 {
-			r.Pass("C18-R3-manifest-entry", "verifyChecksumValues", vc.Pos(), "digest and compressed size are both compared")
+		// both an integer-typed and a string-typed parameter pair are compared with != and the branch returns an error
+		intCmp, strCmp := false, false
+		ast.Inspect(vc.Body, func(n ast.Node) bool {
+			ifs, ok := n.(*ast.IfStmt)
+			if !ok {
+				return true
+			}
+			returns := false
+			for _, st := range ifs.Body.List {
+				if _, isRet := st.(*ast.ReturnStmt); isRet {
+					returns = true
+				}
+			}
+			if !returns {
+				return true
+			}
+			ast.Inspect(ifs.Cond, func(m ast.Node) bool {
+				if be, ok := m.(*ast.BinaryExpr); ok && be.Op == token.NEQ {
+					if b, ok := info.TypeOf(be.X).Underlying().(*types.Basic); ok {
+						if b.Info()&types.IsInteger != 0 {
+							intCmp = true
+						}
+						if b.Info()&types.IsString != 0 {
+							strCmp = true
+						}
+					}
+				}
+				return true
+			})
+			return true
+		})
+		if intCmp && strCmp {
+			r.Pass("C18-R3-manifest-entry", "verifyChecksumValues", vc.Pos(), "digest and compressed size are both compared and a mismatch returns an error")
 		} else {
-			r.Fail("C18-R3-manifest-entry", "verifyChecksumValues", vc.Pos(), "the checksum comparison no longer covers both digest and size")
+			r.Fail("C18-R3-manifest-entry", "verifyChecksumValues", vc.Pos(), "the checksum comparison no longer covers both digest (string !=: %v) and size (integer !=: %v)", strCmp, intCmp)
+		}
+	}
+	var countField *types.Var
+	if tn, ok := p.Types.Scope().Lookup("FileManifest").(*types.TypeName); ok {
+		if st, ok := tn.Type().Underlying().(*types.Struct); ok {
+			for i := 0; i < st.NumFields(); i++ {
+				if st.Field(i).Name() == "Count" {
+					countField = st.Field(i)
+				}
+			}
 		}
 	}
 	for _, name := range []string{"decodeNodeFragmentFile", "decodeEdgeFragmentFile"} {
-		if fd := decls[name]; fd != nil {
-			txt := strings.ReplaceAll(exprString(r.Fset, fd.Body), " ", "")
-			if strings.Contains(txt, "count!=fileEntry.Count") {
-				r.Pass("C18-R3-manifest-entry", name+":count", fd.Pos(), "decoded record count is compared with the manifest")
+		if fd := decls[name]; fd != nil && countField != nil {
+			if pos := comparesWithField(info, fd.Body, countField, token.NEQ); pos != token.NoPos {
+				r.Pass("C18-R3-manifest-entry", name+":count", pos, "decoded record count is compared with the manifest's FileManifest.Count")
 			} else {
 				r.Fail("C18-R3-manifest-entry", name+":count", fd.Pos(), "the decoded record count is no longer compared with the manifest count")
 			}
 		}
 	}
 	checkScanTotals(r, p)
+	checkInjectiveNaming(r, p)
 	r.Floor("C18-R1-codec-table", 4)
 	r.Floor("C18-R1-record-fields", 7)
 	r.Floor("C18-R3-manifest-entry", 5)
@@ -390,4 +430,113 @@ func checkScanTotals(r *Run, p *packages.Package) {
 	}
 	r.Floor("C18-R4-scan-total", 2)
 	r.Floor("C18-R5-zero-is-an-id", 1)
+}
+
+// checkInjectiveNaming (R6/R7): two graphs of one dump are kept apart only by their directory name, and two kind sets
+// only by their interned key.  (R6) graphDirectoryName maps the graph name through url.PathEscape and nothing lossy —
+// no truncation (slice expression), no case folding, trimming or replacement; (R7) no map of the metrics builder is
+// indexed with a key made by strings.Join, which cannot tell ["A","B"] from ["A,B"]: kind-set keys come from the
+// length-prefixed canonical key function.
+func checkInjectiveNaming(r *Run, p *packages.Package) {
+	info := p.TypesInfo
+	decls := FuncDecls(p)
+	if fd := decls["graphDirectoryName"]; fd != nil && fd.Body != nil {
+		lossy := ""
+		pos := fd.Pos()
+		ast.Inspect(fd.Body, func(n ast.Node) bool {
+			switch x := n.(type) {
+			case *ast.SliceExpr:
+				if b, ok := info.TypeOf(x.X).Underlying().(*types.Basic); ok && b.Info()&types.IsString != 0 && lossy == "" {
+					lossy, pos = "the name is truncated ("+exprString(r.Fset, x)+")", x.Pos()
+				}
+			case *ast.CallExpr:
+				if fn := calleeOf(info, x); fn != nil && fn.Pkg() != nil && fn.Pkg().Path() == "strings" && lossy == "" {
+					switch fn.Name() {
+					case "ToLower", "ToUpper", "Map", "Replace", "ReplaceAll", "Trim", "TrimSpace", "TrimLeft", "TrimRight", "TrimPrefix", "TrimSuffix", "Fields", "Title", "ToValidUTF8":
+						lossy, pos = "the name goes through strings."+fn.Name(), x.Pos()
+					}
+				}
+			}
+			return true
+		})
+		escapes := stmtHasCall(fd.Body, func(c *ast.CallExpr) bool {
+			fn := calleeOf(info, c)
+			return fn != nil && funcFullName(fn) == "net/url.PathEscape"
+		})
+		switch {
+		case lossy != "":
+			r.Fail("C18-R6-injective-naming", "graphDirectoryName", pos, "%s: two graph names that differ only in what is lost get the same directory, the second graph's fragments overwrite the first's, and the published manifest lists the same files for both", lossy)
+		case !escapes:
+			r.Fail("C18-R6-injective-naming", "graphDirectoryName", fd.Pos(), "the graph name is no longer mapped through url.PathEscape")
+		default:
+			r.Pass("C18-R6-injective-naming", "graphDirectoryName", fd.Pos(), "url.PathEscape of the name, nothing lossy")
+		}
+	} else {
+		r.Undecide("C18-R6: graphDirectoryName not found")
+	}
+	// R7: map keys made with strings.Join
+	n := 0
+	for _, f := range p.Syntax {
+		if !strings.HasSuffix(r.Fset.Position(f.Pos()).Filename, "metrics.go") {
+			continue
+		}
+		for _, d := range f.Decls {
+			fd, ok := d.(*ast.FuncDecl)
+			if !ok || fd.Body == nil {
+				continue
+			}
+			joined := map[types.Object]token.Pos{}
+			isJoin := func(e ast.Expr) bool {
+				call, ok := ast.Unparen(e).(*ast.CallExpr)
+				if !ok {
+					return false
+				}
+				fn := calleeOf(info, call)
+				return fn != nil && funcFullName(fn) == "strings.Join"
+			}
+			ast.Inspect(fd.Body, func(x ast.Node) bool {
+				if as, ok := x.(*ast.AssignStmt); ok && len(as.Lhs) == len(as.Rhs) {
+					for i, l := range as.Lhs {
+						if id, ok := l.(*ast.Ident); ok && isJoin(as.Rhs[i]) {
+							if obj := info.Defs[id]; obj != nil {
+								joined[obj] = as.Pos()
+							} else if obj := info.Uses[id]; obj != nil {
+								joined[obj] = as.Pos()
+							}
+						}
+					}
+				}
+				return true
+			})
+			ast.Inspect(fd.Body, func(x ast.Node) bool {
+				ix, ok := x.(*ast.IndexExpr)
+				if !ok {
+					return true
+				}
+				if _, isMap := info.TypeOf(ix.X).Underlying().(*types.Map); !isMap {
+					return true
+				}
+				if b, ok := info.TypeOf(ix.Index).Underlying().(*types.Basic); !ok || b.Info()&types.IsString == 0 {
+					return true
+				}
+				n++
+				bad := isJoin(ix.Index)
+				if id, ok := ast.Unparen(ix.Index).(*ast.Ident); ok {
+					if _, j := joined[info.Uses[id]]; j {
+						bad = true
+					}
+				}
+				construct := funcDeclName(fd) + ":" + exprString(r.Fset, ix)
+				if bad {
+					r.Fail("C18-R7-injective-key", construct, ix.Pos(), "a map of the metrics builder is indexed with a strings.Join of names: the key of [\"Admin\",\"Domain\"] equals the key of [\"Admin,Domain\"], so whichever is seen second is counted under the other's kind set and the manifest's histograms no longer describe the fragments")
+				} else {
+					r.Pass("C18-R7-injective-key", construct, ix.Pos(), "the key is not a separator-joined list")
+				}
+				return true
+			})
+		}
+	}
+	if n == 0 {
+		r.Undecide("C18-R7: no string-keyed map access found in retriever/metrics.go")
+	}
 }
